@@ -83,3 +83,14 @@ func init() {
 			"llo/plugin_outcome.go Plugin.outcome (statements before the call of the aggregator in the stream loop)", "C19", "C18")
 	})
 }
+
+// The predecessor digest a plugin is configured with must be a COPY of the bytes it was decoded from (an array
+// conversion), not a pointer into the caller's buffer: the model treats it as a constant of the instance.
+func init() {
+	register(func() {
+		llo := load("llo", false)
+		fd := llo.funcDecl("EVMOnchainConfigCodec", "Decode")
+		addStrs("llo_onchain_decode_digest", append(mercAssignsTo(fd, "cd"), mercAssignsTo(fd, "o.PredecessorConfigDigest")...),
+			"llo/onchain_config_codec.go EVMOnchainConfigCodec.Decode (what is stored as the predecessor digest)", "C06", "C04", "C16")
+	})
+}
